@@ -196,7 +196,17 @@ Section Excl.
   Proof. intros [->| ->]; auto. apply is_dir_h1. Qed.
 
   (* ---- the shape of a thread running [Mkdir p] ------------------------------------------------ *)
-  Hypothesis Hfresh : fresh = KDir [].
+  Variable cr : bool.      (* false: Mkdir p;  true: OpenFile(p, O_RDWR|O_CREATE|O_EXCL) *)
+  Hypothesis Hfresh : fresh = if cr then KFile 1 else KDir [].
+
+  Definition the_wk : wk := if cr then KCreate None else KMkdir None.
+  Definition the_lock : pc := if cr then PCreateW d nm None else PMkdirW d nm None.
+  Definition the_call : qcall := if cr then QCreate p else QMkdir p.
+
+  Lemma cr_cases :
+    (cr = true /\ the_wk = KCreate None /\ the_lock = PCreateW d nm None /\ fresh = KFile 1) \/
+    (cr = false /\ the_wk = KMkdir None /\ the_lock = PMkdirW d nm None /\ fresh = KDir []).
+  Proof. unfold the_wk, the_lock. rewrite Hfresh. destruct cr; [left|right]; repeat split; reflexivity. Qed.
 
   Definition wlk (c : nat) (done rest : cpath) : wst :=
     {| w_cur := c; w_done := done; w_rest := rest; w_sl := 0; w_arg := p |}.
@@ -206,11 +216,13 @@ Section Excl.
   Inductive tshape (h : cheap) : lst -> Prop :=
   | TS_walk done rest c rnd :
       done ++ rest = p -> rest <> [] -> walk_dirs h0 0 done = Some c ->
-      tshape h (mk (PWalk (wlk c done rest) SLstat (KMkdir None)) [] rnd)
+      tshape h (mk (PWalk (wlk c done rest) SLstat the_wk) [] rnd)
   | TS_perm done rest c rnd :
       done ++ rest = p -> rest <> [] -> walk_dirs h0 0 done = Some c ->
-      tshape h (mk (PPerm c (wlk c done rest) SLstat (KMkdir None)) [] rnd)
-  | TS_lock rnd : tshape h (mk (PMkdirW d nm None) [] rnd)
+      tshape h (mk (PPerm c (wlk c done rest) SLstat the_wk) [] rnd)
+  | TS_lock rnd : tshape h (mk the_lock [] rnd)
+  | TS_child hp rnd : cr = true -> h = h1 -> hp = None \/ hp = Some d ->
+      tshape h (mk (PCreateC hp (length h0) None) [] rnd)
   | TS_ok rnd : h = h1 -> tshape h (mk PIdle [KOk] rnd)
   | TS_exist rnd : h = h1 -> tshape h (mk PIdle [KErr XEEXIST] rnd).
 
@@ -226,7 +238,7 @@ Section Excl.
     tshape h' ls' /\
     ((h' = h /\ ls_ok ls' = ls_ok ls) \/ (h = h0 /\ h' = h1 /\ ls_ok ls = false /\ ls_ok ls' = true)).
   Proof.
-    intros Hh Hs. inversion Hs as [done rest c rnd Hp Hne Hw|done rest c rnd Hp Hne Hw|rnd|rnd E|rnd E]; subst ls.
+    intros Hh Hs. inversion Hs as [done rest c rnd Hp Hne Hw|done rest c rnd Hp Hne Hw|rnd|hp rnd Ecr E Ehp|rnd E|rnd E]; subst ls.
     - (* a step of the walk *)
       destruct rest as [|x tl]; [congruence|].
       unfold mc_segment, mk, l_pc, wlk. unfold k_walk_step. cbn [w_rest w_cur w_done w_sl w_arg].
@@ -235,9 +247,14 @@ Section Excl.
         unfold p in Hp. apply app_inj_tail in Hp. destruct Hp as [-> ->].
         rewrite Hres in Hw. injection Hw as <-.
         destruct Hh as [-> | ->].
-        * rewrite Habs. unfold k_wdone. cbn. split; [apply TS_lock|]. left; split; reflexivity.
-        * rewrite lookup_h1_nm. rewrite hget_h1_fresh. rewrite Hfresh. unfold k_wdone. cbn.
-          split; [apply TS_exist; reflexivity|]. left; split; reflexivity.
+        * rewrite Habs. unfold k_wdone.
+          destruct cr_cases as [[Ecr [Ewk [Elk Efr]]]|[Ecr [Ewk [Elk Efr]]]]; rewrite Ewk; cbn; rewrite <- Elk;
+            (split; [apply TS_lock|]; left; split; reflexivity).
+        * rewrite lookup_h1_nm. rewrite hget_h1_fresh. unfold k_wdone.
+          destruct cr_cases as [[Ecr [Ewk [Elk Efr]]]|[Ecr [Ewk [Elk Efr]]]]; rewrite Ewk, Efr; cbn.
+          -- rewrite hget_h1_fresh, Efr. cbn.
+             split; [refine (@TS_child h1 None rnd Ecr eq_refl _); left; reflexivity|]. left; split; reflexivity.
+          -- split; [apply TS_exist; reflexivity|]. left; split; reflexivity.
       + (* an inner component: it is one of [dirs] *)
         assert (Hd : exists dirs', dirs = done ++ x :: dirs').
         { unfold p in Hp. clear -Hp. revert dirs Hp. induction done as [|a done IH]; intros ds Hp; cbn in *.
@@ -263,10 +280,17 @@ Section Excl.
     - (* the segment under the parent's write lock: re-check, then insert *)
       unfold mc_segment, mk, l_pc.
       destruct Hh as [-> | ->].
-      + rewrite Habs. unfold k_alloc. cbn.
-        split; [apply TS_ok; unfold h1; rewrite Hfresh; reflexivity|].
-        right. unfold h1. rewrite Hfresh. repeat split; reflexivity.
-      + rewrite lookup_h1_nm. cbn. split; [apply TS_exist; reflexivity|]. left; split; reflexivity.
+      + destruct cr_cases as [[Ecr [Ewk [Elk Efr]]]|[Ecr [Ewk [Elk Efr]]]]; rewrite Elk; rewrite Habs; unfold k_alloc; cbn.
+        * split; [apply TS_ok; unfold h1; rewrite Efr; reflexivity|].
+          right. unfold h1. rewrite Efr. repeat split; reflexivity.
+        * split; [apply TS_ok; unfold h1; rewrite Efr; reflexivity|].
+          right. unfold h1. rewrite Efr. repeat split; reflexivity.
+      + destruct cr_cases as [[Ecr [Ewk [Elk Efr]]]|[Ecr [Ewk [Elk Efr]]]]; rewrite Elk; rewrite lookup_h1_nm.
+        * rewrite hget_h1_fresh, Efr. cbn.
+          split; [refine (@TS_child h1 (Some d) rnd Ecr eq_refl _); right; reflexivity|]. left; split; reflexivity.
+        * cbn. split; [apply TS_exist; reflexivity|]. left; split; reflexivity.
+    - (* OpenFile found the name taken: lock the existing node, answer EEXIST *)
+      cbn. split; [apply TS_exist; assumption|]. left; split; reflexivity.
     - cbn. split; [apply TS_ok; assumption|]. left; split; reflexivity.
     - cbn. split; [apply TS_exist; assumption|]. left; split; reflexivity.
   Qed.
@@ -313,11 +337,14 @@ Section Excl.
   Qed.
 
   Definition start (rnds : list (list cname)) : mstate :=
-    mc_init h0 (map (fun _ => [QMkdir p]) rnds) rnds.
+    mc_init h0 (map (fun _ => [the_call]) rnds) rnds.
 
   Lemma load_mkdir rnd :
-    k_load [QMkdir p] [] rnd = mk (PWalk (wlk 0 [] p) SLstat (KMkdir None)) [] rnd.
-  Proof. unfold p, mk, wlk. destruct dirs; reflexivity. Qed.
+    k_load [the_call] [] rnd = mk (PWalk (wlk 0 [] p) SLstat the_wk) [] rnd.
+  Proof.
+    unfold the_call. destruct cr_cases as [[Ecr [Ewk _]]|[Ecr [Ewk _]]]; rewrite Ecr, Ewk; unfold p, mk, wlk;
+      destruct dirs; reflexivity.
+  Qed.
 
   Lemma p_ne : p <> [].
   Proof. unfold p. destruct dirs; discriminate. Qed.
@@ -351,22 +378,23 @@ Section Excl.
   Qed.
 
   (* MAIN: any number of threads, any schedule *)
-  Theorem excl_mkdir_main rnds sched :
+  Theorem excl_main rnds sched :
     rnds <> [] ->
     let c := mc_run sched (start rnds) in
     mc_finished c = true ->
     count_ok (c_th c) = 1 /\
     Forall (fun t => l_res (th_ls t) = [KOk] \/ l_res (th_ls t) = [KErr XEEXIST]) (c_th c) /\
     k_kids (c_sh c) d = k_kids h0 d ++ [(nm, length h0)] /\
-    hget (c_sh c) (length h0) = Some (KDir []).
+    hget (c_sh c) (length h0) = Some fresh.
   Proof.
     intros Hne c Hfin. destruct (inv_run sched rnds) as [Hh [Hall Hcnt]]. fold c in Hh, Hall, Hcnt.
     assert (Hdone : Forall (fun t => c_sh c = h1 /\ (l_res (th_ls t) = [KOk] \/ l_res (th_ls t) = [KErr XEEXIST])) (c_th c)).
     { unfold mc_finished, finished in Hfin. rewrite forallb_forall in Hfin.
       rewrite Forall_forall in *. intros t Ht. specialize (Hall _ Ht). specialize (Hfin _ Ht).
       unfold finished_thread in Hfin.
-      inversion Hall as [? ? ? ? ? ? ? E|? ? ? ? ? ? ? E|? E|? ? E|? ? E]; rewrite <- E in Hfin; cbn in Hfin; try discriminate;
-        cbn; auto. }
+      inversion Hall as [? ? ? ? ? ? ? E|? ? ? ? ? ? ? E|? E|? ? ? ? ? E|? ? E|? ? E]; rewrite <- E in Hfin; cbn in Hfin; try discriminate;
+        cbn; auto.
+      destruct cr_cases as [[_ [_ [Elk _]]]|[_ [_ [Elk _]]]]; rewrite Elk in Hfin; discriminate. }
     assert (Hlen : length (c_th c) = length rnds) by apply run_length.
     destruct (c_th c) as [|t ts] eqn:Eth.
     { destruct rnds; [congruence|discriminate]. }
@@ -374,18 +402,30 @@ Section Excl.
     { inversion Hdone as [|? ? [E _] _]. exact E. }
     split; [rewrite Hcnt, E1, is_h1_h1; reflexivity|]. split.
     - eapply Forall_impl; [|exact Hdone]. intros a [_ H]. exact H.
-    - rewrite E1. split; [apply kids_h1_d|]. rewrite hget_h1_fresh. rewrite Hfresh. reflexivity.
+    - rewrite E1. split; [apply kids_h1_d|]. apply hget_h1_fresh.
   Qed.
 
-  (* no lock is ever held between two steps of these threads: no schedule can deadlock them *)
-  Lemma tshape_holds h ls : tshape h ls -> mc_holds ls = [].
-  Proof. intros H; inversion H; reflexivity. Qed.
+  (* the only lock held between two steps is the parent's, by a thread about to lock the node
+     just created (a younger node): the discipline is ascending, no schedule can deadlock *)
+  Lemma tshape_holds h ls hd : tshape h ls -> In hd (mc_holds ls) -> hd = (d, true) /\ mc_request ls = Some {| r_lock := length h0; r_write := true |}.
+  Proof.
+    intros H; inversion H as [| | |hp rnd Ecr E Ehp| |]; subst; cbn; try tauto.
+    - destruct cr_cases as [[_ [_ [Elk _]]]|[_ [_ [Elk _]]]]; rewrite Elk; cbn; tauto.
+    - destruct Ehp as [-> | ->]; cbn; [tauto|]. intros [<-|[]]. split; reflexivity.
+  Qed.
 
-  Theorem excl_mkdir_no_deadlock rnds sched : mc_deadlocked (mc_run sched (start rnds)) = false.
+  Lemma tshape_idle_holds h ls : tshape h ls -> mc_request ls = None -> mc_holds ls = [].
+  Proof.
+    intros H; inversion H as [| | |hp rnd Ecr E Ehp| |]; subst; cbn; try discriminate; auto.
+    destruct cr_cases as [[_ [_ [Elk _]]]|[_ [_ [Elk _]]]]; rewrite Elk; cbn; discriminate.
+  Qed.
+
+  Theorem excl_no_deadlock rnds sched : mc_deadlocked (mc_run sched (start rnds)) = false.
   Proof.
     destruct (inv_run sched rnds) as [_ [Hall _]]. rewrite Forall_forall in Hall.
-    unfold mc_deadlocked. apply (deadlock_free_of_order mc_request mc_holds (fun l => l)).
-    - intros t r h Hin _ Hh. rewrite (tshape_holds (Hall _ Hin)) in Hh. destruct Hh.
-    - intros t Hin _. apply (tshape_holds (Hall _ Hin)).
+    unfold mc_deadlocked. apply deadlock_free_of_order with (rank := fun l : lock => l).
+    - intros t r h Hin Hr Hh. destruct (@tshape_holds _ _ h (Hall _ Hin) Hh) as [-> Hr'].
+      rewrite Hr' in Hr. injection Hr as <-. cbn. apply d_lt.
+    - intros t Hin Hr. apply (@tshape_idle_holds _ _ (Hall _ Hin) Hr).
   Qed.
 End Excl.
